@@ -293,4 +293,18 @@ example :
 example : ∀ i ∈ (List.replicate 700 (⟨false, 2⟩ : In)), speedValid ⟨false, false⟩ i.speed = true := by
   intro i hi; rw [List.eq_of_mem_replicate hi]; rfl
 
+/-! ## A start strobe and a reset of the clock domain are the same event for the timer
+
+The counter is the timer's only register and a start strobe loads its reset value, so the state after a start is the
+power-on state.  The co-simulation's `domreset` cases (a `ResetInserter` around the gateware timer, reset pulse in the
+middle of a count) hand the domain reset to the model as a start; these two lemmas are why that is the right reading
+of "from the most recent timer start (or reset)". -/
+
+theorem start_is_reset (c : Config) (s : State) (sp : Nat) : (step c s ⟨true, sp⟩).1 = init := by
+  simp [step, next, init]
+
+theorem run_after_start_eq_run_from_reset (c : Config) (s : State) (sp : Nat) (is : List In) :
+    run c (step c s ⟨true, sp⟩).1 is = run c init is := by
+  rw [start_is_reset]
+
 end LunaVerif.InterpacketTimer
